@@ -24,13 +24,16 @@ tie (T-diff): random hierarchies with 0 or 1 injected defect (two drivers of a b
      elab_model         (faithful structural model incl. known deviations) -> used to classify a disagreement: "the
                                                                               implementation behaves like its structural model";
                                                                               recorded in the evidence, never a violation by itself
-  and must be the same for every order.
+  Accept-vs-reject must be the same for every order; every exception class observed in any order must be one of the
+  admissible alternatives of the decision (C09_defect_alts_spec: all offending statements of the FIRST failing check
+  stage; with a single defect that is exactly the decision).
 partial: error families are compared by exception class only; the order in which two simultaneous defects are reported is
   modelled as the order of the checks in elaborate() and only single injected defects are generated; the iterative writer
   resolution is modelled as a monotone parallel fixed point (proved order-independent), its agreement with the sequential
   loop of _resolve_value_connections rests on the differential run (faithful model vs implementation).
 """
 from common import *
+import re
 import elab_common as ec
 from elab_common import EP, ConstEP, Sig, twidth, fits, parts, whole
 import c08
@@ -188,6 +191,7 @@ class Inj:
     cs = d.conns(); rng.shuffle(cs)
     if duplicate:
       for h, st in cs:
+        if isinstance(st[1], ConstEP) or isinstance(st[2], ConstEP): continue     # repeating connect( x, const ) adds a second constant driver
         d.stmts[h].append(('conn', st[2], st[1]) if rng.random() < 0.5 else ('conn', st[1], st[2])); return True
       return False
     for h, st in cs:
@@ -436,6 +440,10 @@ DEFS = '''
 Definition code (o : option defect) : nat :=
   match o with None => 0 | Some MultiWriter => 1 | Some NoWriter => 2 | Some InvalidConn => 3 | Some PortRule => 4
   | Some BlkWrite => 5 | Some FFBlkWrite => 6 | Some FFNonTop => 7 end%nat.
+Definition dcode (d : defect) : nat := code (Some d).
+(* the observed outcome (0 = accepted, else the family code) is one of the admissible answers *)
+Definition admissible (alts : list defect) (obs : nat) : bool :=
+  match obs with 0%nat => match alts with [] => true | _ => false end | _ => existsb (fun d => Nat.eqb (dcode d) obs) alts end.
 Definition ctype := (design * nat)%type.
 '''
 IMPORTS = 'Base.Prelude Sched.Accept Elab.Nets Elab.Address Elab.Defects'
@@ -500,39 +508,48 @@ def run(ctx):
       outs.append((code, src, r, orders, flips))
       ctx.count((d.name, v), True, cls=f'{inj} -> {FAMNAME[code]}')
     c0 = outs[0][0]
-    stable = all(o[0] == c0 for o in outs)
+    # "for every ordering": accept-vs-reject must not depend on the order.  (Which of several simultaneous defects is reported
+    # first may: every observed class is checked below against the admissible alternatives of the decision model.)
+    stable = all((o[0] == 0) == (c0 == 0) for o in outs)
     if not stable:
-      v = next(i for i, o in enumerate(outs) if o[0] != c0)
-      key = pattern_key(d, c0, outs[v][0], unstable=True) or f'C09:order-dependent:{ec.dhash(outs[0][1])}'
+      v = next(i for i, o in enumerate(outs) if (o[0] == 0) != (c0 == 0))
+      rej = outs[v][0] or c0
+      key = pattern_key(d, c0, outs[v][0], unstable=True) or f'C09:order-dependent:{inj}:accepted-vs-{FAMNAME[rej]}'
       ctx.violation(key, f'design {d.name} (injection "{inj}"): statement order 0 -> {FAMNAME[c0]} ({outs[0][2][1] if c0 else ""}) but order {v} of the same statements -> {FAMNAME[outs[v][0]]} ({outs[v][2][1] if outs[v][0] else ""})',
                     {'design_source_order0': outs[0][1], f'design_source_order{v}': outs[v][1], 'injection': inj,
                      'classes_per_order': [FAMNAME[o[0]] for o in outs]})
-    # the model is evaluated on the description in generation order and in one permuted order
-    for v in (0, min(3, K - 1)):
+    # the model is evaluated on the description in generation order, in one permuted order, and on the first order of
+    # every further exception class that was observed
+    pick = [0, min(3, K - 1)]
+    for v, o in enumerate(outs):
+      if o[0] not in [outs[u][0] for u in pick]: pick.append(v)
+    for v in pick:
       code, src, r, orders, flips = outs[v]
       term = coq_design(d, orders, flips)
       cases_bit.append(f'({term}, {code}%nat)'); cases_faith.append(cases_bit[-1])
       meta.append((d, inj, src, r, v, stable))
     if j < 3: ctx.sample({'design': d.name, 'injection': inj, 'source_tail': outs[0][1][-600:], 'elaborate': FAMNAME[c0]})
-  bad_bit = ctx.coq_bad_indices('bit', IMPORTS, DEFS, 'ctype', cases_bit, 'wf_design_addrs (fst c) && Nat.eqb (code (bit_level_defect (fst c))) (snd c)', shard=40)
-  bad_f = ctx.coq_bad_indices('faith', IMPORTS, DEFS, 'ctype', cases_faith, 'wf_design_addrs (fst c) && Nat.eqb (code (elab_model (fst c))) (snd c)', shard=40)
+  bad_bit = ctx.coq_bad_indices('bit', IMPORTS, DEFS, 'ctype', cases_bit, 'wf_design_addrs (fst c) && admissible (defect_alts bitlevel (fst c)) (snd c)', shard=40)
+  bad_f = ctx.coq_bad_indices('faith', IMPORTS, DEFS, 'ctype', cases_faith, 'wf_design_addrs (fst c) && admissible (defect_alts faithful (fst c)) (snd c)', shard=40)
   fset = set(bad_f)
   if bad_bit:
     sel = bad_bit[:60]
     verdicts = ctx.coq_eval('why_bit', IMPORTS, DEFS, [f'code (bit_level_defect (fst {cases_bit[i]}))' for i in sel])
+    alts = ctx.coq_eval('alts_bit', IMPORTS, DEFS, [f'map dcode (defect_alts bitlevel (fst {cases_bit[i]}))' for i in sel])
     wf = ctx.coq_eval('wf_bit', IMPORTS, DEFS, [f'wf_design_addrs (fst {cases_bit[i]})' for i in sel])
     for n, i in enumerate(sel):
       d, inj, src, r, v, stable = meta[i]
       try: mv = int(verdicts[n].split('%')[0])
       except Exception: mv = -1
+      al = [FAMNAME.get(int(x), x) for x in re.findall(r'(\d+)', alts[n])]
       obs = 0 if r[0] == 'ok' else FAMILY.get(r[1], 99)
       if wf[n].strip() != 'true':
-        ctx.violation(f'C09:harness-wf:{d.name}', f'address universe of {d.name} is not well-formed ({wf[n]})', {'design_source': src}, found_input=False); continue
-      key = pattern_key(d, obs, mv) or f'C09:verdict:{ec.dhash(src)}'
-      what = (f'design {d.name} (injection "{inj}", order {v}): bit-level decision = {FAMNAME.get(mv, mv)} but top.elaborate() -> '
+        ctx.violation('C09:harness-wf', f'address universe of {d.name} is not well-formed ({wf[n]})', {'design_source': src}, found_input=False); continue
+      key = pattern_key(d, obs, mv) or f'C09:verdict:{inj}:{FAMNAME.get(mv, mv)}-but-{FAMNAME[obs]}'
+      what = (f'design {d.name} (injection "{inj}", order {v}): bit-level decision = {FAMNAME.get(mv, mv)}' + (f' (admissible: {al})' if len(al) > 1 else '') + ' but top.elaborate() -> '
               f'{FAMNAME[obs]}' + (f' [{r[1]}: {r[2][:160]}]' if obs else '')
               + (' (the faithful structural model of the elaboration checks reproduces the implementation\'s answer)' if i not in fset else ''))
-      ctx.violation(key, what, {'design_source': src, 'injection': inj, 'model_verdict': FAMNAME.get(mv, mv), 'observed': FAMNAME[obs],
+      ctx.violation(key, what, {'design_source': src, 'injection': inj, 'model_verdict': FAMNAME.get(mv, mv), 'admissible': al, 'observed': FAMNAME[obs],
                                 'exception': None if r[0] == 'ok' else [r[1], r[2]], 'faithful_model_agrees_with_implementation': i not in fset,
                                 'coq_design': cases_bit[i][:4000]})
   # the faithful model is a validation aid: where the implementation meets the bit-level decision but not the faithful model,
@@ -569,9 +586,10 @@ def replay(ctx, r):
   if len(allo) > 1: print('REPRODUCED: the same statements give different outcomes:', sorted(allo)); rc = 1
   mv = rp.get('model_verdict')
   if mv is not None:
-    name = {v: k for k, v in FAMILY.items()}
-    exp = 'accepted' if mv == 'accepted' else next((k for k, c in FAMILY.items() if FAMNAME[c] == mv), mv)
-    print(f'model verdict: {mv} (expected outcome class: {exp})')
-    if any(o != exp for o in allo): print('REPRODUCED: elaboration outcome differs from the decision model'); rc = 1
+    fams = rp.get('admissible') or [mv]
+    if mv == 'accepted': fams = ['accepted']
+    exp = {'accepted' if f == 'accepted' else next((k for k, c in FAMILY.items() if FAMNAME[c] == f), f) for f in fams}
+    print(f'model verdict: {mv} (admissible outcome classes: {sorted(exp)})')
+    if any(o not in exp for o in allo): print('REPRODUCED: elaboration outcome differs from the decision model'); rc = 1
   shutil.rmtree(ctx.scratch, ignore_errors=True)
   return rc
